@@ -14,6 +14,10 @@ Tie (model = lean/Eliot/Model/LogCall.lean through Driver/C18.lean), per call:
   `posOnlyRespected` => the model's `bindingAgrees` flag (evaluated sufficient condition for the
   hypothesis of the partial theorems).
 
+The oracle keys of the defects fixed in /repo (6098461: {"param_name": "logger"|"action_type"|"_serializers"} with or without
+"effect": "start-field-missing"; cab5e1a: {"include_args": "self"}) stay: their hand-written cases run on every seed, so a
+regression is reported as a VIOLATION.
+
 Oracles (never look at the model): see `check_case`.  Every oracle failure is attributed by a
 counterfactual re-run on the real code (rename the one special parameter name / drop `self` from
 include_args / make positional-only parameters ordinary): if the failure disappears the key names
@@ -29,17 +33,19 @@ LEAN_TARGETS = ["Eliot.Properties.C18"]
 AUDIT = "Eliot/Audit/C18.lean"
 THEOREMS = [
     "LC.wrapper_transparent_partial",
-    "LC.wrapper_not_transparent_action_type",
-    "LC.wrapper_not_transparent_logger",
-    "LC.wrapper_not_transparent_serializers",
+    "LC.action_type_now_transparent",
+    "LC.logger_now_transparent",
+    "LC.serializers_now_transparent",
+    "LC.include_self_now_transparent",
     "LC.wrapper_not_transparent_posonly_kwargs",
     "LC.wrapper_not_transparent_posonly_keyword",
-    "LC.wrapper_not_transparent_include_self",
     "LC.wrapper_transparent_false",
     "LC.start_fields_are_bound_args_partial",
     "LC.start_fields_not_bound_args_task_level",
-    "LC.start_fields_not_bound_args_logger_none",
+    "LC.start_fields_not_bound_args_action_type",
+    "LC.logger_none_now_logged",
     "LC.start_fields_are_bound_args_false",
+    "LC.decorated_raises_only_type_error_or_body",
     "LC.end_has_result_iff",
     "LC.default_action_type",
     "LC.bind_keys",
@@ -50,9 +56,9 @@ RULE = ("calls = generated signature (0-6 parameters over the five kinds, defaul
         "non-trivial = signature with >= 2 parameter kinds; distinct by canonical hash of (sig, form, opts, args, body)")
 TRUSTED = ["CPython's argument binding, inspect.getcallargs and boltons.funcutils.wraps are modelled and compared on every case, not verified",
            "exec-generated functions stand for all functions; argument values are None/int/str atoms (the wrapper only tests `is None`)"]
-ASSUMPTIONS = ["partial theorems: no parameter is named logger/action_type/_serializers (NoCollision), none like a structural key "
-               "(start fields), include_args does not name self, and the three binders agree on the call (bindingAgrees, evaluated "
-               "to coincide with `no keyword spelled like a positional-only parameter` on every generated call)",
+ASSUMPTIONS = ["partial theorems: the three binders agree on the call (bindingAgrees, evaluated; implied by `no keyword spelled like a "
+               "positional-only parameter` on every generated call); for the start fields additionally no parameter is named like one of the "
+               "five keys Action._start writes itself (noStructural)",
                "logging itself does not raise (C07)"]
 EXPLANATION = ("transparency / start fields proved under explicit decidable hypotheses, refuted at full strength by evaluated witnesses; "
                "end-result and default action type proved at full strength; model tied to the real decorated/undecorated pair per call")
@@ -60,7 +66,7 @@ EXPLANATION = ("transparency / start fields proved under explicit decidable hypo
 NEUTRAL = ["x", "y", "z", "a", "b", "c", "n", "w"]
 SOFT = ["result", "args", "kwargs", "message_type", "exception", "reason", "self"]
 COLLIDE = ["logger", "action_type", "_serializers"]
-STRUCT = ["task_level", "timestamp", "task_uuid", "action_status"]
+STRUCT = ["task_level", "timestamp", "task_uuid", "action_status"]  # + action_type: overwritten too since 6098461
 HOT = COLLIDE + STRUCT
 STRUCT_KEYS = ["action_status", "timestamp", "task_uuid", "action_type", "task_level"]
 KINDS = ["posOnly", "posOrKw", "varPos", "kwOnly", "varKw"]
